@@ -67,6 +67,7 @@ HIGHER = [
     F(AA, A), F(AA, A, A), F(A, AA, A), F(AA, AA, A), F(AA, AA, A, A),
     F(AA, A, AA, A), F(AA, AA, AA, A, A), F(AAA, A, A), F(AAA, A, A, A),
     F(A, AAA, A), F(AA, A, A, A), F(A, AA, A, A), F(AA, AAA, A, A),
+    F(A, A, A, AA, A), F(AA, A, A, AA, A), F(A, A, AA, AA, A),
 ]
 THIRD = [F(F(AA, A), A), F(F(AA, A, A), A, A), F(F(AA, A), AA, A)]
 
@@ -94,8 +95,8 @@ class Lang:
         def term(t):
             if t is None:
                 return None
-            if t[0] == "ap":
-                return ("ap", t[1], [term(a) for a in t[2]])
+            if t[0] in ("ap", "vap"):
+                return (t[0], t[1], [term(a) for a in t[2]])
             return tuple(t)
         return Lang([{"name": o["name"], "type": tt(o["type_tree"]), "nbody": o["nbody"],
                       "body": term(o.get("body"))} for o in d["ops"]])
@@ -144,6 +145,8 @@ class Lang:
         if t[0] == "var":
             return env[t[1]]
         _, name, args = t
+        if t[0] == "vap":
+            return env[name](*[self.build_term(a, env, sources) for a in args])
         e = self.py[name].instance()
         if args:
             e = e(*[self.build_term(a, env, sources) for a in args])
@@ -178,6 +181,11 @@ def gen_term(rng, lang_ops, T, env, depth, nsrc, p_partial=0.5):
         for k in range(n + 1):
             if residual(ot, k) == T:
                 apps.append((name, ot, k))
+    vapps = []
+    for v, vt in env:
+        for k in range(1, len(params_of(vt)) + 1):
+            if residual(vt, k) == T:
+                vapps.append((v, vt, k))
     leafy = [c for c in cands]
     bare = [(n, t, k) for (n, t, k) in apps if k == 0]
     if depth <= 0:
@@ -189,6 +197,7 @@ def gen_term(rng, lang_ops, T, env, depth, nsrc, p_partial=0.5):
         # weight: applications dominate, leaves keep terms finite
         pool += leafy * 2
         pool += [("op",) + a for a in apps for _ in range(3 if a[2] else 1)]
+        pool += [("vop",) + a for a in vapps for _ in range(2)]
     if not pool:
         raise ValueError(f"no term of type {ty_text(T)}")
     c = rng.choice(pool)
@@ -196,9 +205,10 @@ def gen_term(rng, lang_ops, T, env, depth, nsrc, p_partial=0.5):
         return ("var", c[1])
     if c[0] == "src":
         return ("src", rng.randrange(nsrc))
-    _, name, ot, k = c
+    kind, name, ot, k = c
     ps = params_of(ot)[:k]
-    return ("ap", name, [gen_term(rng, lang_ops, p, env, depth - 1, nsrc) for p in ps])
+    return ("ap" if kind == "op" else "vap", name,
+            [gen_term(rng, lang_ops, p, env, depth - 1, nsrc) for p in ps])
 
 
 def gen_lang(rng, third=False):
@@ -225,6 +235,9 @@ def gen_lang(rng, third=False):
         ops.append({"name": f"f{i}", "type": t, "nbody": 0, "body": None})
     prims = [(o["name"], o["type"]) for o in ops]
     avail = list(prims)
+    if rng.random() < 0.4:      # constant functions: K x y = x, partially applied later
+        ops.append({"name": "k0", "type": AAA, "nbody": 2, "body": ("var", rng.choice(["p0", "p1"]))})
+        avail.append(("k0", AAA))
     for j in range(rng.randint(0, 3)):
         t = rng.choice([AA, AAA, AAA, F(A, A, A, A)] + HIGHER[:6] + ([THIRD[1]] if third else []))
         ps = params_of(t)
@@ -279,7 +292,11 @@ def annotate(lang: Lang, w, venv=None):
         return venv.get(w["id"])
     if k == "op":
         return lang.sig(w["op"])
-    if k == "abs":
+    if k == "abs":      # only reached for an abstraction that is not an argument (malformed)
+        env2 = dict(venv)
+        for p in w["ps"]:
+            env2[p] = None
+        annotate(lang, w["b"], env2)
         return None
     ft = annotate(lang, w["f"], venv)
     pt = ft[1] if (ft is not None and ft != A) else None
@@ -470,33 +487,93 @@ def impl_graph(lang: Lang, expr):
     return r, out
 
 
-def to_rdf(result, triples):
-    """Encode a (result, triples) observation as an rdflib graph whose nodes
-    are all blank, for comparison up to renaming."""
-    from rdflib import Graph, BNode, URIRef
-    g = Graph()
-    m = {}
+def _adjacency(obs, tag):
+    """nodes and labelled adjacency of one observation; node keys are (tag, name)"""
+    r, ts = obs
+    nodes = {}
+    adj = {}
 
-    def b(x):
-        if x not in m:
-            m[x] = BNode()
-        return m[x]
-    P = {"from": URIRef("urn:p:from"), "internal": URIRef("urn:p:internal"), "via": URIRef("urn:p:via")}
-    for s, p, o in triples:
-        g.add((b(s), P[p], URIRef("urn:op:" + str(o)) if p == "via" else b(o)))
-    g.add((URIRef("urn:root"), URIRef("urn:p:result"), b(result)))
-    return g
+    def nd(x):
+        k = (tag, x)
+        if k not in nodes:
+            nodes[k] = ["n", ""]
+            adj[k] = []
+        return k
+    nd(r)
+    nodes[(tag, r)][0] = "r"
+    for s, p, o in ts:
+        if p == "via":
+            nodes[nd(s)][1] += "|" + str(o)
+        else:
+            a, b = nd(s), nd(o)
+            adj[a].append((p + ">", b))
+            adj[b].append((p + "<", a))
+    return {k: tuple(v) for k, v in nodes.items()}, adj
+
+
+def _refine(col, adj):
+    """colour refinement to a stable partition; colours are small ints obtained by
+    ranking signatures, computed over both graphs together so they stay comparable"""
+    while True:
+        sig = {n: (col[n], tuple(sorted((lab, col[m]) for lab, m in adj[n]))) for n in col}
+        rank = {s: i for i, s in enumerate(sorted(set(sig.values())))}
+        new = {n: rank[sig[n]] for n in col}
+        if len(set(new.values())) == len(set(col.values())):
+            return new
+        col = new
 
 
 def iso(o1, o2) -> bool:
-    from rdflib.compare import isomorphic
+    """Are two (result node, triples) observations equal up to renaming of nodes?
+    (colour refinement + individualisation with backtracking; rdflib.compare is
+    not used because its canonicalisation does not terminate in reasonable time
+    on graphs with repeated identical sub-expressions)"""
     if len(o1[1]) != len(o2[1]):
         return False
-    c1 = Counter(p for _, p, _ in o1[1])
-    c2 = Counter(p for _, p, _ in o2[1])
-    if c1 != c2:
+    if Counter(p for _, p, _ in o1[1]) != Counter(p for _, p, _ in o2[1]):
         return False
-    return isomorphic(to_rdf(*o1), to_rdf(*o2))
+    n1, a1 = _adjacency(o1, 0)
+    n2, a2 = _adjacency(o2, 1)
+    if len(n1) != len(n2):
+        return False
+    adj = dict(a1)
+    adj.update(a2)
+    init = dict(n1)
+    init.update(n2)
+    rank = {s: i for i, s in enumerate(sorted(set(init.values())))}
+    col0 = {n: rank[init[n]] for n in init}
+    budget = [20000]
+
+    def search(col):
+        budget[0] -= 1
+        if budget[0] < 0:
+            raise RuntimeError("isomorphism search budget exhausted")
+        col = _refine(col, adj)
+        cls = {}
+        for n, c in col.items():
+            cls.setdefault(c, [[], []])[n[0]].append(n)
+        for c, (l, r) in cls.items():
+            if len(l) != len(r):
+                return False
+        multi = [(len(l), c) for c, (l, r) in cls.items() if len(l) > 1]
+        if not multi:
+            # discrete: the colouring is the bijection; check edges exactly
+            m = {cls[c][0][0]: cls[c][1][0] for c in cls}
+            e1 = Counter((a, lab, b) for a in a1 for lab, b in a1[a])
+            e2 = Counter((a, lab, b) for a in a2 for lab, b in a2[a])
+            return Counter((m[a], lab, m[b]) for (a, lab, b) in e1.elements()) == e2 and \
+                all(n1[a] == n2[m[a]] for a in n1)
+        _, c = min(multi)
+        x = cls[c][0][0]
+        top = max(col.values()) + 1
+        for y in cls[c][1]:
+            col2 = dict(col)
+            col2[x] = top
+            col2[y] = top
+            if search(col2):
+                return True
+        return False
+    return search(col0)
 
 
 def summary(obs):
@@ -578,3 +655,357 @@ def model_obs(lang: Lang, val):
     for s, p, o in ts:
         out.add((s, P[p], lang.ops[o]["name"] if p == 2 else o))
     return n, out
+
+
+def term_from_json(t):
+    if t[0] in ("ap", "vap"):
+        return (t[0], t[1], [term_from_json(a) for a in t[2]])
+    return tuple(t)
+
+
+# --------------------------------------------------------------------------
+# fixed cases: the shapes pinned by the test-suite, the Coq witness, argument-order pairs
+
+def fixed_lang() -> Lang:
+    ops = [
+        {"name": "f", "type": AA, "nbody": 0, "body": None},
+        {"name": "g", "type": AAA, "nbody": 0, "body": None},
+        {"name": "h1", "type": F(AA, A), "nbody": 0, "body": None},
+        {"name": "h", "type": F(AA, A, A), "nbody": 0, "body": None},
+        {"name": "hr", "type": F(A, AA, A), "nbody": 0, "body": None},
+        {"name": "h2", "type": F(AAA, A, A, A), "nbody": 0, "body": None},
+        {"name": "h3", "type": F(AA, AA, AA, A, A), "nbody": 0, "body": None},
+        {"name": "hh", "type": F(AA, AA, A), "nbody": 0, "body": None},
+        {"name": "inner", "type": F(AA, A, A, A), "nbody": 0, "body": None},
+        {"name": "ff", "type": AA, "nbody": 1, "body": ("ap", "f", [("ap", "f", [("var", "p0")])])},
+        {"name": "gg", "type": AAA, "nbody": 2,
+         "body": ("ap", "g", [("var", "p1"), ("ap", "g", [("var", "p0"), ("var", "p1")])])},
+        {"name": "ident", "type": AA, "nbody": 1, "body": ("var", "p0")},
+        {"name": "eta", "type": AA, "nbody": 1, "body": ("ap", "f", [("var", "p0")])},
+        {"name": "g1", "type": AAA, "nbody": 1, "body": ("ap", "g", [("var", "p0")])},
+        {"name": "K", "type": AAA, "nbody": 2, "body": ("var", "p0")},
+        {"name": "twice", "type": F(AA, A, A), "nbody": 2,
+         "body": ("vap", "p0", [("vap", "p0", [("var", "p1")])])},
+    ]
+    return Lang(ops)
+
+
+S0, S1 = ("src", 0), ("src", 1)
+
+
+def ap(name, *args):
+    return ("ap", name, list(args))
+
+
+FIXED_TERMS = [
+    ("test_basic", ap("f", S0)),
+    ("test_operation_as_sole_parameter", ap("h1", ap("f"))),
+    ("test_operation_as_parameter", ap("h", ap("f"), S0)),
+    ("test_abstraction_as_parameter", ap("h", ap("ff"), S0)),
+    ("test_complex_abstraction_as_parameter", ap("h2", ap("gg"), S0, S1)),
+    ("test_empty_abstraction_as_parameter", ap("h1", ap("ident"))),
+    ("test_abstraction_same_as_primitive", ap("h1", ap("eta"))),
+    ("test_cycle", ap("h3", ap("f"), ap("ff"), ap("eta"), S0)),
+    ("test_nested_operation_as_parameter", ap("h", ap("inner", ap("f"), S0), S1)),
+    ("test_function_abstraction_body", ap("h2", ap("g1"), S0)),
+    ("shared_source", ap("g", ap("f", S0), ap("g", S0, S0))),
+    ("coq_witness_const_after", ap("hr", S0, ap("K", S0))),        # C08_pinned_refuted
+    ("const_before", ap("h", ap("K", S0), S0)),
+    ("const_siblings", ap("hh", ap("K", S0), ap("K", S0))),
+    ("const_other_source", ap("hr", S0, ap("K", S1))),
+    ("twice_reduced", ap("twice", ap("f"), S0)),
+    ("nested_three", ap("h3", ap("inner", ap("f"), S0), ap("g", S1), ap("K", S1), ap("h", ap("ff"), S0))),
+]
+
+
+def enum_terms(lang_ops, T, depth, nsrc, cache):
+    """all terms of type T over operators lang_ops with nesting <= depth"""
+    key = (T, depth)
+    if key in cache:
+        return cache[key]
+    out = []
+    if T == A:
+        out += [("src", i) for i in range(nsrc)]
+    for name, ot in lang_ops:
+        n = len(params_of(ot))
+        for k in range(n + 1):
+            if residual(ot, k) != T:
+                continue
+            if k == 0:
+                out.append(("ap", name, []))
+            elif depth > 0:
+                import itertools
+                parts = [enum_terms(lang_ops, p, depth - 1, nsrc, cache) for p in params_of(ot)[:k]]
+                for combo in itertools.product(*parts):
+                    out.append(("ap", name, list(combo)))
+    cache[key] = out
+    return out
+
+
+# --------------------------------------------------------------------------
+# one case: build, run, observe
+
+class Case:
+    __slots__ = ("lang", "term", "nsrc", "name", "w", "impl", "impl_error", "dom", "text", "keep")
+
+    def __init__(self, lang, term, nsrc, name):
+        self.lang, self.term, self.nsrc, self.name = lang, term, nsrc, name
+
+    def payload(self):
+        return {"language": self.lang.to_json(), "term": self.term, "term_text": term_text(self.term),
+                "nsrc": self.nsrc, "name": self.name,
+                "how_to_rebuild": "operators as listed (composite ones with the given body over parameters p0..), "
+                                  "one Source(A) per s<k>; build the term by calling the operators, then .primitive(); "
+                                  "TransformationGraph(lang, minimal=True, with_operators=True).add_expr(expr, BNode())"}
+
+
+def run_impl(case: Case) -> bool:
+    """Build the expression with the real library and run add_expr.  False if the
+    expression itself cannot be built (not a C08 matter)."""
+    import transforge.expr as E
+    lang = case.lang
+    srcs = [E.Source(lang.Aop()) for _ in range(case.nsrc)]
+    try:
+        e = lang.build_term(case.term, {}, srcs).primitive()
+    except Exception:
+        return False
+    ids, keep = {}, []
+    w = walk(lang, e, ids, keep)
+    annotate(lang, w)
+    set_opi(lang, w)
+    case.w, case.keep = w, keep
+    case.text = wexpr_text(w)
+    case.dom = in_domain(w)
+    case.impl, case.impl_error = None, None
+    try:
+        case.impl = impl_graph(lang, e)
+    except AssertionError as ex:
+        case.impl_error = "AssertionError"
+    except Exception as ex:        # noqa: BLE001 - any other exception is itself an observation
+        case.impl_error = type(ex).__name__
+    return True
+
+
+def fn_mismatch(w) -> bool:
+    k = w["k"]
+    if k == "app":
+        return (w["fn"] != w["fn_impl"]) or fn_mismatch(w["f"]) or fn_mismatch(w["x"])
+    if k == "abs":
+        return fn_mismatch(w["b"])
+    return False
+
+
+OBS_HDR = HDR + """
+Definition teqb (a b : triple) : bool :=
+  Nat.eqb (fst (fst a)) (fst (fst b)) && Nat.eqb (snd (fst a)) (snd (fst b)) && Nat.eqb (snd a) (snd b).
+Definition subset (l1 l2 : list triple) : bool := forallb (fun t => existsb (teqb t) l2) l1.
+Definition same (r1 r2 : option (node * list triple)) : bool :=
+  match r1, r2 with
+  | Some (n1, l1), Some (n2, l2) => Nat.eqb n1 n2 && subset l1 l2 && subset l2 l1
+  | None, None => true
+  | _, _ => false
+  end.
+(* pinned model; 1 if the repaired model gives the same graph, else 0 followed by it;
+   in the theorem's domain?; does flow (label0 e) equal the repaired model's graph? *)
+Definition obs (e : expr) :=
+  let rp := run true e in let rf := run false e in
+  (rp, Nat.b2n (same rp rf), (if same rp rf then None else rf), dom e,
+   Nat.b2n (same rf (Some (lnode (label0 e), flow (label0 e))))).
+"""
+
+
+def evaluate(rep: C.Report, cases: list, tag: str, stats_acc: Counter, distinct: set, samples: list):
+    """correspondence + oracle over built cases"""
+    blocks = [(f"Eval vm_compute in obs {coq_expr(c.w)}.\n", 1) for c in cases]
+    outs = C.coq_eval_blocks(f"C08_{tag}", OBS_HDR, blocks, nfiles=4)
+    nviol = 0
+    for c, vals in zip(cases, outs):
+        mp_raw, same, mf_raw, dom, flowok = vals[0]
+        mp = model_obs(c.lang, mp_raw)
+        mf = mp if same else model_obs(c.lang, mf_raw)
+        stats_acc["evaluations"] += 1
+        stats_acc["in_domain" if c.dom else "out_of_domain"] += 1
+        if bool(dom) != c.dom:
+            rep.violation(f"domain_{tag}_{stats_acc['evaluations']}", dict(c.payload(), kind="harness",
+                what="in_domain (harness) and wfb (Coq) disagree", expr=c.text), has_input=False)
+        # --- which model explains the implementation?
+        if c.impl is None:
+            agrees_fixed = mf is None
+            agrees_pinned = mp is None
+        else:
+            agrees_fixed = mf is not None and iso(c.impl, mf)
+            agrees_pinned = mp is not None and iso(c.impl, mp)
+        sig = SIG_CONST if (agrees_pinned and not agrees_fixed) else None
+        base = dict(c.payload(), expr=c.text, in_domain=c.dom,
+            impl=listing(c.impl) if c.impl else c.impl_error,
+            model=listing(mf) if mf else None,
+            impl_agrees_with_model_of_pinned_code=agrees_pinned)
+        if c.impl is None:
+            stats_acc["impl_errors"] += 1
+        if c.dom:
+            stats(c.w, stats_acc)
+            nfn = 0
+            acc1 = Counter()
+            stats(c.w, acc1)
+            if acc1["fun_args"]:
+                distinct.add((json.dumps(c.lang.to_json()["ops"], sort_keys=True), c.text))
+                stats_acc["higher_order_cases"] += 1
+            else:
+                stats_acc["first_order_cases"] += 1
+            # --- oracle: the property, evaluated on the implementation
+            spec = flow(c.w)
+            if c.impl is None:
+                ok = False
+                what = f"add_expr raised {c.impl_error} on a well-formed expression"
+            else:
+                ok = iso(c.impl, spec)
+                what = ("from/internal/via triples differ from the independently built data-flow graph "
+                        "(application tree + internal nodes per the property)")
+            if not ok:
+                nviol += 1
+                if nviol <= 6 or sig is None:
+                    rep.violation(f"oracle_{tag}_{stats_acc['evaluations']}", dict(base, kind="oracle", what=what,
+                        expected=listing(spec), impl_counts=summary(c.impl) if c.impl else None,
+                        expected_counts=summary(spec)), has_input=True, signature=sig)
+                elif sig is not None and rep.known(sig) is not None:
+                    rep.violation("known", {}, signature=sig)
+            # spec side consistency (Coq flow = repaired model, repaired model = Python oracle)
+            if not flowok or mf is None or not iso(mf, spec):
+                rep.violation(f"spec_{tag}_{stats_acc['evaluations']}", dict(base, kind="harness",
+                    what="Coq flow(label0 e), the repaired model and the Python oracle are not the same graph",
+                    expected=listing(spec)), has_input=False)
+            if fn_mismatch(c.w):
+                rep.violation(f"fntype_{tag}_{stats_acc['evaluations']}", dict(base, kind="correspondence",
+                    what="expr.x.type is (not) a Function type where the declared parameter type says otherwise"),
+                    has_input=False)
+            if len(samples) < 4 and acc1["fun_args"] >= 2 and c.impl is not None:
+                samples.append({"language": [(o["name"], ty_text(o["type"])) for o in c.lang.ops],
+                    "expr": c.text, "impl": listing(c.impl), "model": listing(mf) if mf else None})
+        # --- correspondence K_C08: implementation vs the (repaired) model
+        if not agrees_fixed:
+            stats_acc["disagreements"] += 1
+            if not c.dom or sig is None:
+                rep.violation(f"disagree_{tag}_{stats_acc['evaluations']}", dict(base, kind="correspondence",
+                    what="TransformationGraph.add_expr differs from the model add_expr (K_C08)"),
+                    has_input=False, signature=sig)
+
+
+def build_cases(lang: Lang, items, out: list, skipped: Counter):
+    lang.build()
+    for name, term, nsrc in items:
+        c = Case(lang, term, nsrc, name)
+        if run_impl(c):
+            out.append(c)
+        else:
+            skipped["not_buildable"] += 1
+
+
+def main(tier: str, seed: int, replay: str | None = None) -> int:
+    C.force_repo_on_path()
+    rep = C.Report(PID, tier, seed)
+    if replay:
+        return do_replay(rep, replay)
+    rep.proof_stage()
+    rng = random.Random(seed)
+    cases: list = []
+    skipped = Counter()
+    # 1. fixed cases (test-suite shapes, Coq witness, argument-order pairs)
+    build_cases(fixed_lang(), [(n, t, 2) for n, t in FIXED_TERMS], cases, skipped)
+    nfixed = len(cases)
+    # 2. random languages and expressions
+    nlang, per = (60, 10) if tier == "quick" else (500, 12)
+    for _ in range(nlang):
+        lang = gen_lang(rng, third=(rng.random() < 0.15))
+        ops = [(o["name"], o["type"]) for o in lang.ops]
+        items = []
+        for i in range(per):
+            nsrc = rng.randint(1, 3)
+            T = A if rng.random() < 0.85 else rng.choice([AA, AAA])
+            try:
+                term = gen_term(rng, ops, T, [], rng.randint(1, 4), nsrc)
+            except ValueError:
+                skipped["no_term"] += 1
+                continue
+            items.append((f"random", term, nsrc))
+        build_cases(lang, items, cases, skipped)
+    nrandom = len(cases) - nfixed
+    # 3. thorough: exhaustive over a fixed operator set
+    nexh = 0
+    if tier == "thorough":
+        lang = fixed_lang()
+        sub = [o for o in lang.ops if o["name"] in ("f", "g", "h", "hr", "hh", "ff", "ident", "K")]
+        small = Lang(sub)
+        ops = [(o["name"], o["type"]) for o in small.ops]
+        cache = {}
+        terms = enum_terms(ops, A, 2, 2, cache)
+        if len(terms) > 3500:
+            terms = rng.sample(terms, 3500)
+        build_cases(small, [("exhaustive", t, 2) for t in terms], cases, skipped)
+        nexh = len(cases) - nfixed - nrandom
+    acc, distinct, samples = Counter(), set(), []
+    shard = 1500
+    for k in range(0, len(cases), shard):
+        evaluate(rep, cases[k:k + shard], f"{tier}_{k // shard}", acc, distinct, samples)
+    maxes = {k: acc[k] for k in ("depth", "max_fun_args_on_one_step")}
+    rep.coverage.update({
+        "evaluations": acc["evaluations"],
+        "distinct_nontrivial": len(distinct),
+        "disagreements": acc["disagreements"],
+        "rule": "random languages over one base type (2-9 primitive operators of order <= 2, 15% with third-order "
+                "ones, 0-4 composite operators with random bodies incl. constant functions) and random well-typed "
+                "expressions to depth 4 built through the public API and expanded with .primitive(); "
+                f"{nfixed} fixed cases (the test-suite's shapes, the Coq witness, argument-order pairs)"
+                + (f"; {nexh} exhaustive terms of nesting <= 2 over a fixed set of 8 operators and 2 sources" if nexh else "")
+                + "; non-trivial = in the theorem's domain (wfb) and with at least one function-typed argument, "
+                  "distinct by language and expression",
+        "samples": samples,
+        "distribution": {
+            "fixed": nfixed, "random": nrandom, "exhaustive": nexh,
+            "in_domain": acc["in_domain"], "out_of_domain_model_only": acc["out_of_domain"],
+            "implementation_raised": acc["impl_errors"],
+            "first_order_cases": acc["first_order_cases"], "higher_order_cases": acc["higher_order_cases"],
+            "application_steps": acc["spines"], "function_typed_arguments": acc["fun_args"],
+            "partial_applications_passed": acc["partial_app_args"], "abstractions_passed": acc["abstractions"],
+            "abstractions_with_leaf_body": acc["abs_leaf_body"],
+            "steps_whose_function_argument_has_internals_itself": acc["nested_internal"],
+            "source_uses": acc["source_uses"], "max_expression_depth": maxes["depth"],
+            "max_function_arguments_on_one_step": maxes["max_fun_args_on_one_step"],
+            "skipped": dict(skipped)},
+        "exhaustive": False})
+    rep.assumptions = [
+        "domain of the theorem and of the oracle (wfb): every application is headed by an operation, "
+        "function-typed arguments are operations / partial applications / abstractions, parameters are used "
+        "as data; other shapes (a parameter applied as a function inside a residual abstraction) are only "
+        "compared with the model",
+        "add_from adds (a, from, b) and otherwise only tf:depends triples (add_from_ok); tf:depends is C09's",
+        "rdflib's objects() iterates over a snapshot (memory store: list(dict.keys()))",
+        "agreement between model and implementation is tested on the generated cases, not proved",
+    ]
+    return rep.finish(C.TRUSTED)
+
+
+def do_replay(rep: C.Report, path: str) -> int:
+    d = json.loads(open(path).read())
+    lang = Lang.from_json(d["language"])
+    case = Case(lang, term_from_json(d["term"]), d.get("nsrc", 2), d.get("name", "replay"))
+    lang.build()
+    if not run_impl(case):
+        print(f"replay: expression cannot be built: {d.get('term_text')}")
+        return 2
+    print(f"replay: {case.text}   in_domain={case.dom}")
+    if not case.dom:
+        print("replay: outside the property's domain; nothing to decide")
+        return 0
+    spec = flow(case.w)
+    ok = case.impl is not None and iso(case.impl, spec)
+    for line in (listing(case.impl) if case.impl else [str(case.impl_error)]):
+        print("  impl     ", line)
+    for line in listing(spec):
+        print("  expected ", line)
+    if not ok:
+        rep.violation("replayed", dict(case.payload(), kind="oracle", expr=case.text,
+            impl=listing(case.impl) if case.impl else case.impl_error, expected=listing(spec),
+            what="replayed input still violates the property"), has_input=True,
+            signature=d.get("signature"))
+    rep.coverage.update({"evaluations": 1, "replay_of": path})
+    return rep.finish(C.TRUSTED)
